@@ -650,8 +650,15 @@ pub fn random_plan(transport: &str, pool: &Pool, seed: u64, bytes_target: usize,
             for _ in 0..n {
                 ops.push(Op::Read(None));
             }
-            if with_writes && rng.gen_bool(0.1) {
-                ops.push(Op::Write(lens[rng.gen_range(0..lens.len())].min(252)));
+            if with_writes && (rng.gen_bool(0.2) || ops.len() < 6) {
+                // a third of the user writes (and the first ones of every session) are the largest frames of the mode:
+                // a frame is one datagram however large it is
+                let big: Vec<usize> = lens.iter().copied().filter(|l| *l > 200).collect();
+                if !big.is_empty() && (rng.gen_bool(0.34) || ops.len() < 6) {
+                    ops.push(Op::Write(big[rng.gen_range(0..big.len())]));
+                } else {
+                    ops.push(Op::Write(lens[rng.gen_range(0..lens.len())]));
+                }
             }
         }
     } else {
@@ -696,8 +703,15 @@ pub fn random_plan(transport: &str, pool: &Pool, seed: u64, bytes_target: usize,
                     reads_due -= 1;
                 }
             }
-            if with_writes && rng.gen_bool(0.1) {
-                ops.push(Op::Write(lens[rng.gen_range(0..lens.len())].min(252)));
+            if with_writes && (rng.gen_bool(0.2) || ops.len() < 6) {
+                // a third of the user writes (and the first ones of every session) are the largest frames of the mode:
+                // a frame is one datagram however large it is
+                let big: Vec<usize> = lens.iter().copied().filter(|l| *l > 200).collect();
+                if !big.is_empty() && (rng.gen_bool(0.34) || ops.len() < 6) {
+                    ops.push(Op::Write(big[rng.gen_range(0..big.len())]));
+                } else {
+                    ops.push(Op::Write(lens[rng.gen_range(0..lens.len())]));
+                }
             }
         }
         if unpacked > 0 {
